@@ -54,6 +54,8 @@ type ProcCase struct {
 	StdinMode string `json:"stdin_mode,omitempty"`
 	// StdoutTTY: descriptor 1 is a terminal (a pseudo-terminal whose other end the harness reads)
 	StdoutTTY bool `json:"stdout_tty,omitempty"`
+	// FFifo: the -f program file is a named pipe
+	FFifo bool `json:"f_fifo,omitempty"`
 
 	fifos []fifoFeed
 	ofifo string
@@ -158,7 +160,13 @@ func (c *ProcCase) setup(dir string, variant string) (args []string, stdinPath s
 	}
 	if viaF {
 		name := "prog.jqawk"
-		if !c.FMissing {
+		if !c.FMissing && c.FFifo {
+			// the program text arrives through a named pipe (as with -f <(gen) or -f /dev/stdin)
+			if err = syscall.Mkfifo(filepath.Join(dir, name), 0o644); err != nil {
+				return
+			}
+			c.fifos = append(c.fifos, fifoFeed{path: filepath.Join(dir, name), data: []byte(prog)})
+		} else if !c.FMissing {
 			if err = os.WriteFile(filepath.Join(dir, name), []byte(prog), 0o644); err != nil {
 				return
 			}
@@ -813,6 +821,7 @@ func genProcCase(t *Tape, c01only bool) *ProcCase {
 		}
 	}
 	c.StdoutTTY = t.Chance(1, 8)
+	c.FFifo = t.Chance(1, 5)
 	// a named input may be a pipe rather than a regular file, or a kernel-provided file
 	if len(c.Inputs) > 0 && t.Chance(1, 6) {
 		c.Inputs[t.Draw(len(c.Inputs))].Kind = "fifo"
